@@ -101,6 +101,11 @@ class ItemAttributeList(List[T]):
         return result
 
     def extend(self, items: Iterable[T]) -> None:
+        if items is self:
+            # like for list.extend(), extending a list by itself
+            # duplicates its items (instead of looping forever)
+            items = list(items)
+
         for item in items:
             self.append(item)
 
